@@ -462,7 +462,9 @@ void execute_c09(const Plan &plan, Verdict &v) {
     w2.seal();
     size_t ci = 0;
     uint64_t clock = 0;
+    std::string last_history_op;
     for (const Op &op : plan.ops) {
+        if (op.kind == "a" || op.kind == "idle" || op.kind == "over") last_history_op = op.kind;
         if (op.kind == "cuts") {
             cuts = op.a;
             ci = 0;
@@ -477,14 +479,17 @@ void execute_c09(const Plan &plan, Verdict &v) {
         } else if (op.kind == "over") {
             // oversize chunk: overruns the input buffer (-363), buffer invalidated
             std::string junk((size_t) cfg.inbuf + (size_t) clampl(op.arg(0), 0, 50), 'Z');
+            if (w1.ctx->buffer.position > 0) COUNT("fault_oversize_chunk_with_pending_bytes");
             w1.input(junk);
             COUNT("fault_oversize_chunk");
         } else if (op.kind == "fwpush") {
             w1.fw_push((int) (int16_t) op.arg(0), nullptr, 0);
         }
     }
-    // A must be terminated: whatever is still pending is executed by the idle timer before B arrives
-    if (w1.ctx->buffer.position > 0) {
+    // A must be terminated: a partial message that is still pending is executed by the idle timer before B arrives.
+    // After an overrun or an idle flush the library itself must have emptied the buffer; nothing is flushed then,
+    // so that a stale remainder shows up as a difference in B.
+    if (w1.ctx->buffer.position > 0 && last_history_op == "a") {
         w1.flush_input();
         COUNT("fault_idle_flush_with_pending");
     }
@@ -558,7 +563,11 @@ void generate_c09(Rng &r, const GenOpts &g, Plan &p) {
                 break;
             }
             case 1: p.ops.push_back(Op("a", {}, std::string(broken[r.below(sizeof broken / sizeof broken[0])]) + gen_terminator(r))); break;
-            case 2: p.ops.push_back(Op("over", {(long) r.below(20)})); break;
+            case 2:
+                // oversize chunk, sometimes while a partial message is still buffered
+                if (r.chance(1, 2)) p.ops.push_back(Op("a", {}, r.chance(1, 2) ? "TEST:TREEA?;TEST:ECHO? 12" : "TEST:TEXT? \"ab"));
+                p.ops.push_back(Op("over", {(long) r.below(20)}));
+                break;
             case 3: p.ops.push_back(Op("fwpush", {-(long) r.range(100, 400)})); break;
             case 4: {
                 std::string m = mutate_bytes(r, gen_message(r, ma), (int) r.range(1, 3));
@@ -596,7 +605,7 @@ const Property C09 = {
     {"malloc"},
     generate_c09,
     execute_c09,
-    {"fault_idle_flush_with_pending", "fault_oversize_chunk", "unit_pairs", "history_messages"},
+    {"fault_idle_flush_with_pending", "fault_oversize_chunk", "fault_oversize_chunk_with_pending_bytes", "unit_pairs", "history_messages"},
     "world 1: fresh context, history A1..An (n=1..6) of well-formed, mutated and deliberately broken messages (half blocks, failing handlers, unread parameters, "
     "unterminated text + idle flush, oversize chunks, firmware errors), then B; world 2: B alone. B's handler invocations, parameters, output bytes, flush count and "
     "newly raised codes (-350 masked) must be equal. One run in five checks unit isolation: U1;U2 versus U2 alone. distinct_nontrivial = distinct hashes of both worlds' traces.",
